@@ -6,8 +6,8 @@
 EXTENDS EER, Json, IOUtils
 
 CONSTANTS K, MaxP, MaxN, EasyPairs
-EasyQuick    == {<<0, 0>>, <<2, 0>>, <<0, 3>>, <<2, 3>>}
-EasyThorough == EasyQuick \cup {<<5, 5>>, <<1, 4>>, <<3, 1>>}
+EasyQuick    == {<<0, 0>>, <<2, 0>>, <<0, 3>>, <<2, 3>>, <<1, 1>>}
+EasyThorough == EasyQuick \cup {<<5, 5>>, <<1, 4>>, <<3, 1>>, <<2, 2>>}
 V == 0..(K - 1)
 Objects ==
   {o \in [pos : AscSeqs(V, MaxP), neg : AscSeqs(V, MaxN), ep : {e[1] : e \in EasyPairs},
